@@ -374,8 +374,13 @@ class Project:
         """
         # A file whose whole name is an SPDX License Identifier (Python-2.0.1,
         # OLDAP-2.0.1) has no file extension, even if the part before the last
-        # dot happens to be an identifier as well.
-        if not path.suffix or path.name in self.license_map:
+        # dot happens to be an identifier as well. LicenseRef- names do not
+        # count: they enter the map while LICENSES/ is being scanned, and the
+        # result must not depend on the order of that scan.
+        if not path.suffix or (
+            path.name in self.license_map
+            and not _LICENSEREF_PATTERN.match(path.name)
+        ):
             raise SpdxIdentifierNotFoundError(f"{path} has no file extension")
         if path.stem in self.license_map:
             return path.stem
